@@ -11,7 +11,7 @@ class NameSanitizer(ABC):
 
 
 class BuiltinNameSanitizer(NameSanitizer):
-    _BAD_CHARS = re.compile(r"\W")
+    _BAD_CHARS = re.compile(r"\W", re.ASCII)  # '²' matches unicode \w, but can not be a part of identifier
     _TRANSLATE_MAP = str.maketrans({".": "_", "[": "_"})
 
     def sanitize(self, name: str) -> str:
@@ -20,6 +20,6 @@ class BuiltinNameSanitizer(NameSanitizer):
 
         first_letter = name[0] if name[0] in string.ascii_letters else "_"
         result = first_letter + self._BAD_CHARS.sub("", name[1:].translate(self._TRANSLATE_MAP))
-        if keyword.iskeyword(result):
+        if keyword.iskeyword(result) or result == "__debug__":  # assignment to __debug__ is SyntaxError
             return result + "_"
         return result
